@@ -45,12 +45,17 @@ def _work(job):
     import hashlib
     from pyvc.smt import _solve
     from pyvc.verify import explore_path
-    idx, prefix = job
+    idx, prefix = job[0], job[1]
     c = _CONTRACTS[idx]
     n_before = len(_UNI.assumptions)
     t0 = time.time()
     try:
-        obls, more, rep = explore_path(_UNI, c, prefix)
+        from pyvc.verify import FunctionReport
+        rep0 = FunctionReport(c)
+        # cover points already reached on another path of this contract are
+        # not checked again
+        rep0.covered |= set(job[2]) if len(job) > 2 else set()
+        obls, more, rep = explore_path(_UNI, c, prefix, rep0)
     except ExtractionError as err:
         return idx, {"extraction": str(err)}
     except Exception as err:       # noqa
@@ -113,6 +118,7 @@ def _run_all(todo, max_paths=4000):
     """path-level parallel exploration of all contracts"""
     import multiprocessing as mp
     parts = {i: [] for i in range(len(todo))}
+    covered = {i: set() for i in range(len(todo))}
     jobs = [(i, []) for i in range(len(todo))]
     if not jobs:
         return []
@@ -131,10 +137,12 @@ def _run_all(todo, max_paths=4000):
                 progressed = True
                 idx, out = h.get()
                 parts[idx].append(out)
+                covered[idx] |= set(out.get("covered", ()))
                 if "more" in out and not out["unsupported"] and \
                         len(parts[idx]) <= max_paths:
                     for pre in out["more"]:
-                        nxt.append(pool.apply_async(_work, ((idx, pre),)))
+                        nxt.append(pool.apply_async(
+                            _work, ((idx, pre, tuple(covered[idx])),)))
             pending = nxt
             if not progressed:
                 time.sleep(0.02)
